@@ -200,6 +200,7 @@ pub fn device_path() -> BoxedStrategy<String> {
         3 => prop::sample::select(vec!["a\"b", "\\", "a\\", "\"", "\")(evil)(\"", "x;y", "#|", "~a", "é/日", "", " ", "\n", "a\\\"b", "\\\\", "(lipe-scan \"x\")"]).prop_map(|s| s.to_string()),
         2 => proptest::collection::vec(prop::sample::select(crate::checks::c04::ALPHABET.to_vec()), 0..12).prop_map(|v| v.into_iter().collect::<String>()),
         1 => "[ -~]{0,20}",
+        2 => prop::sample::select(crate::dict::tokens()),
         1 => (prop::sample::select(vec!["/dev/", "\"", "\\", "é"]), 2000usize..10_000).prop_map(|(u, n)| u.repeat(n / u.len())),
     ]
     .boxed()
@@ -211,7 +212,15 @@ pub fn run(ctx: &Ctx) -> Report {
     let mut total = run_shards(shards, |shard| {
         let mut st = Stats::new();
         let op = prop_oneof![4 => device_path().prop_map(Op::Scheme), 1 => Just(Op::IoMap)];
-        let strat = (gen::expr_over(gen::supported_leaf(), 4, 12, true), prop_oneof![3 => Just(None), 1 => gen::count_u32().prop_map(Some)], proptest::collection::vec(op, 2..6)).prop_map(|(t, th, mut ops)| {
+        let tok = || prop::sample::select(crate::dict::tokens());
+        let leaf = prop_oneof![
+            8 => gen::supported_leaf(),
+            1 => tok().prop_map(|t| E::T(Tst::Name(t))),
+            1 => tok().prop_map(|t| E::T(Tst::Pool(t))),
+            1 => tok().prop_map(|t| E::T(Tst::XattrMatch("user.tag".into(), t))),
+            1 => tok().prop_filter("format literal", |t| !t.contains('%') && !t.contains('\\')).prop_map(|t| E::A(Act::Printf(vec![FEl::Lit(t), FEl::E(Esc::Newline)]))),
+        ];
+        let strat = (gen::expr_over(leaf.boxed(), 4, 12, true), prop_oneof![3 => Just(None), 1 => gen::count_u32().prop_map(Some)], proptest::collection::vec(op, 2..6)).prop_map(|(t, th, mut ops)| {
             // make repeats likely: sometimes render the first path again at the end
             if let Some(Op::Scheme(p)) = ops.first().cloned() {
                 if ops.len() % 2 == 0 {
